@@ -336,6 +336,8 @@ def mk_event_map(rng, P):
     em = event.EventMap()
     for s in srcs:
         em.add(s)
+        if rng.random() < 0.2:
+            em.add(rng.choice(srcs[:srcs.index(s) + 1]))     # a source added again is ignored
     return em, srcs
 
 
